@@ -1,15 +1,40 @@
 /* Contract of the t1-selection block of AbstractIntegratorRep::takeOneStep (cut as a region, wrapped by the extractor into
    takeOneStep_t1(t0,tMax)). From the property: the step target never passes tMax (= min(scheduled, final[, report])) and
-   time strictly advances, or the "unable to advance" error is raised. All doubles (products are by constants only). */
+   time strictly advances, or the "unable to advance" error is raised.
+
+   Bit-precise reasoning about `tMax > t0 + 1.001*h  ==>  t0 + h <= tMax` needs monotonicity of IEEE + and *const, which no
+   back end here decides on the 64-bit circuits (SAT, z3, cvc5: no answer in 400 s). The extractor therefore rewrites the
+   three sums/products of the block to vf_add / vf_mulc, whose bodies below are TRUSTED IEEE LEMMAS (DESIGN 3.7: correct
+   rounding is monotone): the result is some double that is monotone w.r.t. the earlier calls with the same first operand
+   and lies on the correct side of that operand. Comparisons and control flow stay bit-precise. */
 #define NN(x) (!__CPROVER_isnand(x))
-Real takeOneStep_t1(struct IntegratorRep* self, Real t0, Real tMax, bool* hLimited)
-__CPROVER_requires(__CPROVER_is_fresh(self, sizeof(*self)) && __CPROVER_is_fresh(hLimited, sizeof(*hLimited)))
-__CPROVER_requires(NN(t0) && NN(tMax) && ghost_threw == 0)
-__CPROVER_assigns(*hLimited, ghost_threw)
-__CPROVER_ensures(ghost_threw == 0 ==> (t0 < __CPROVER_return_value && __CPROVER_return_value <= tMax))
-__CPROVER_ensures(ghost_threw == 1 ==> !(__CPROVER_return_value > t0))
-/* the target is tMax itself or one current step; "artificially limited" exactly when tMax cuts >5% off the wanted step */
-__CPROVER_ensures(__CPROVER_return_value == tMax || __CPROVER_return_value == t0 + self->currentStepSize)
-__CPROVER_ensures(*hLimited == (tMax < t0 + 0.95*self->currentStepSize))
-__CPROVER_ensures(*hLimited ==> __CPROVER_return_value == tMax)
-;
+double nondet_double(void);
+/* c*x for a positive finite constant c */
+static double vf_mulc(double c, double x) {
+    __CPROVER_assert(c > 0.0 && !__CPROVER_isinfd(c), "vf_mulc lemma applies to positive finite constants only");
+    double r = nondet_double();
+    __CPROVER_assume(__CPROVER_isnand(r) == __CPROVER_isnand(x));
+    __CPROVER_assume(x == 0.0 ==> r == 0.0);
+    __CPROVER_assume((x > 0.0 && c >= 1.0) ==> r >= x);
+    __CPROVER_assume((x > 0.0 && c <= 1.0) ==> (r >= 0.0 && r <= x));
+    __CPROVER_assume((x < 0.0 && c >= 1.0) ==> r <= x);
+    __CPROVER_assume((x < 0.0 && c <= 1.0) ==> (r <= 0.0 && r >= x));
+    return r;
+}
+/* a+b, monotone in b for fixed a (up to 3 calls are related, the block has exactly 3 sums) */
+static double ghost_add_a[3], ghost_add_b[3], ghost_add_r[3]; static int ghost_add_n;
+static double vf_add(double a, double b) {
+    double r = nondet_double();
+    __CPROVER_assume((NN(a) && NN(b) && !__CPROVER_isinfd(a)) ==> NN(r));
+    __CPROVER_assume((__CPROVER_isnand(a) || __CPROVER_isnand(b)) ==> __CPROVER_isnand(r));
+    __CPROVER_assume((NN(a) && b > 0.0) ==> r >= a);
+    __CPROVER_assume((NN(a) && b < 0.0) ==> r <= a);
+    __CPROVER_assume((NN(a) && b == 0.0) ==> r == a);
+    if (ghost_add_n > 0 && ghost_add_a[0] == a) { __CPROVER_assume(ghost_add_b[0] <= b ==> (ghost_add_r[0] <= r || __CPROVER_isnand(r) || __CPROVER_isnand(ghost_add_r[0]))); __CPROVER_assume(b <= ghost_add_b[0] ==> (r <= ghost_add_r[0] || __CPROVER_isnand(r) || __CPROVER_isnand(ghost_add_r[0]))); }
+    if (ghost_add_n > 1 && ghost_add_a[1] == a) { __CPROVER_assume(ghost_add_b[1] <= b ==> (ghost_add_r[1] <= r || __CPROVER_isnand(r) || __CPROVER_isnand(ghost_add_r[1]))); __CPROVER_assume(b <= ghost_add_b[1] ==> (r <= ghost_add_r[1] || __CPROVER_isnand(r) || __CPROVER_isnand(ghost_add_r[1]))); }
+    __CPROVER_assert(ghost_add_n < 3, "vf_add lemma table large enough");
+    ghost_add_a[ghost_add_n] = a; ghost_add_b[ghost_add_n] = b; ghost_add_r[ghost_add_n] = r; ghost_add_n = ghost_add_n + 1;
+    return r;
+}
+
+Real takeOneStep_t1(struct IntegratorRep* self, Real t0, Real tMax, bool* hLimited);
